@@ -7,16 +7,57 @@ import (
 	"verifsim/internal/isa"
 )
 
-// features are facts about a case computed from the program and its REFERENCE
-// execution only.
+// features are facts about a case computed from the program text and its
+// REFERENCE execution only (never from the machine under test).
 type features struct {
 	ref *isa.Result
-	// executed counts per op
 	ops [isa.NumOps]int
-	// Loads / Stores executed
-	loads, stores int
-	// taken conditional branches and executed jumps
-	takenBranches, jumps int
+	// executed loads / stores / conditional branches / taken branches / jumps
+	loads, stores, condBranches, takenBranches, jumps int
+	// redirects = taken conditional branches + executed jumps (what can flush)
+	redirects int
+	// storeThenLoadSameLine: a store is followed (any distance) by a load of the same 64-byte line
+	storeThenLoadSameLine bool
+	// storeThenAccessSameLine: a store is followed by any access to the same 128-byte region
+	storeThenAccessSameRegion bool
+	// storesSameLine: two stores touch the same 64-byte line
+	storesSameLine bool
+	// conflictSameLine: a store and another access (load or store, either order) touch the same 64-byte line
+	conflictSameLine bool
+	// loadDestOverwritten: a load's destination register is written again by
+	// another instruction within 16 executed instructions
+	loadDestOverwritten bool
+	// loadBeforeRedirect: a load is followed within 16 executed instructions by a redirect
+	loadBeforeRedirect bool
+	// memBeforeRedirect: any load/store followed within 24 executed instructions by a redirect
+	memBeforeRedirect bool
+	// memAfterRedirect: a load/store executes within 24 instructions after a redirect
+	memAfterRedirect bool
+	// regRewrittenAroundBranch: a register written within 10 executed
+	// instructions before a conditional branch is written again within 10
+	// instructions after it on the executed path, or statically in the 8
+	// instructions following a taken branch (its shadow)
+	regRewrittenAroundBranch bool
+	// shadowWrites: the 8 instructions that statically follow a taken
+	// conditional branch or an executed jump contain a register write or a store
+	shadowHasWork bool
+	// shadowHasStore: ... contain a store
+	shadowHasStore bool
+	// shadowHasTrap: ... contain div/rem, a jump (j/jal/jalr) or a branch to an undefined label
+	shadowHasTrap bool
+	// shadowHasMem: ... contain a load or a store
+	shadowHasMem bool
+	// shadowHasJump: ... contain a jump or branch
+	shadowHasControl bool
+	// endsWithMemInFlight: a load or store among the last 6 executed instructions
+	memNearEnd bool
+	// writes near the end (last 4 executed instructions write a register)
+	distinctLines int
+	// exitKind: 0 ret, 1 fall-through, 2 jump to end
+	exitKind int
+	// twoMemSameCycleWindow: two memory accesses within 4 executed instructions of each other
+	memClose bool
+	executed int
 }
 
 func featuresOf(c *core.Case) *features {
@@ -24,20 +65,152 @@ func featuresOf(c *core.Case) *features {
 	if !ref.End.WellFormed() {
 		return nil
 	}
-	f := &features{ref: ref}
-	for _, st := range ref.Trace {
-		in := c.Prog.Insts[st.Idx]
+	p := c.Prog
+	f := &features{ref: ref, exitKind: ref.ExitKind, executed: len(ref.Trace)}
+	type acc struct {
+		pos   int
+		line  int32
+		store bool
+	}
+	var accs []acc
+	lines := map[int32]bool{}
+	lastRedirect := -1000
+	lastMem := -1000
+	// recent register writes: reg -> position
+	lastWrite := map[isa.Reg]int{}
+	lastLoadDest := map[isa.Reg]int{}
+	// pending "written before branch" sets per branch
+	type br struct {
+		pos    int
+		before map[isa.Reg]bool
+	}
+	var recentBranches []br
+	for i, st := range ref.Trace {
+		in := p.Insts[st.Idx]
 		f.ops[in.Op]++
+		isRedirect := false
 		switch {
 		case in.Op.IsLoad():
 			f.loads++
 		case in.Op.IsStore():
 			f.stores++
-		case in.Op.IsCondBranch() && st.Taken:
-			f.takenBranches++
+		case in.Op.IsCondBranch():
+			f.condBranches++
+			if st.Taken {
+				f.takenBranches++
+				isRedirect = true
+			}
 		case in.Op.IsJump():
 			f.jumps++
+			isRedirect = true
+		}
+		if in.Op.IsLoad() || in.Op.IsStore() {
+			line := st.Addr >> 6
+			lines[line] = true
+			for _, a := range accs {
+				if a.line == line && (a.store || in.Op.IsStore()) {
+					f.conflictSameLine = true
+				}
+				if a.store && a.line>>1 == line>>1 {
+					f.storeThenAccessSameRegion = true
+				}
+				if a.store && a.line == line && in.Op.IsLoad() {
+					f.storeThenLoadSameLine = true
+				}
+				if a.store && a.line == line && in.Op.IsStore() {
+					f.storesSameLine = true
+				}
+			}
+			accs = append(accs, acc{i, line, in.Op.IsStore()})
+			if i-lastRedirect <= 24 {
+				f.memAfterRedirect = true
+			}
+			if i-lastMem <= 4 {
+				f.memClose = true
+			}
+			lastMem = i
+			if len(ref.Trace)-i <= 6 {
+				f.memNearEnd = true
+			}
+		}
+		if isRedirect {
+			f.redirects++
+			lastRedirect = i
+			if i-lastMem <= 24 {
+				f.memBeforeRedirect = true
+			}
+			for _, pos := range lastLoadDest {
+				if i-pos <= 16 {
+					f.loadBeforeRedirect = true
+				}
+			}
+			// static shadow
+			for k := 1; k <= 8; k++ {
+				j := int(st.Idx) + k
+				if j >= len(p.Insts) {
+					break
+				}
+				sh := p.Insts[j]
+				if _, w := sh.Writes(); w || sh.Op.IsStore() {
+					f.shadowHasWork = true
+				}
+				if sh.Op.IsLoad() || sh.Op.IsStore() {
+					f.shadowHasMem = true
+				}
+				if sh.Op.IsStore() {
+					f.shadowHasStore = true
+				}
+				if sh.Op == isa.DIV || sh.Op == isa.REM || sh.Op.IsJump() {
+					f.shadowHasTrap = true
+				}
+				if sh.Label != "" {
+					if _, ok := p.Labels[sh.Label]; !ok {
+						f.shadowHasTrap = true
+					}
+				}
+				if sh.Op.IsJump() || sh.Op.IsCondBranch() || sh.Op == isa.RET {
+					f.shadowHasControl = true
+				}
+			}
+		}
+		if in.Op.IsCondBranch() {
+			b := br{pos: i, before: map[isa.Reg]bool{}}
+			for r, pos := range lastWrite {
+				if i-pos <= 10 {
+					b.before[r] = true
+				}
+			}
+			// static shadow of a taken branch
+			if st.Taken {
+				for k := 1; k <= 8; k++ {
+					j := int(st.Idx) + k
+					if j >= len(p.Insts) {
+						break
+					}
+					if rd, w := p.Insts[j].Writes(); w && b.before[rd] {
+						f.regRewrittenAroundBranch = true
+					}
+				}
+			}
+			recentBranches = append(recentBranches, b)
+		}
+		if rd, w := in.Writes(); w && rd != isa.Zero {
+			if pos, ok := lastLoadDest[rd]; ok && i-pos <= 16 && pos != i {
+				f.loadDestOverwritten = true
+			}
+			for _, b := range recentBranches {
+				if i > b.pos && i-b.pos <= 10 && b.before[rd] {
+					f.regRewrittenAroundBranch = true
+				}
+			}
+			lastWrite[rd] = i
+			if in.Op.IsLoad() {
+				lastLoadDest[rd] = i
+			} else {
+				delete(lastLoadDest, rd)
+			}
 		}
 	}
+	f.distinctLines = len(lines)
 	return f
 }
